@@ -236,7 +236,9 @@ InvocationsLaw(h, S) ==
         Tot(f) == LET P(r) == f \in r.flows IN NReq(h, 0, P)
         Ep(f)  == LET P(r) == f \in r.flows IN NReq(h, h.ep, P)
         \* one choice for all flows of a scrape: since the start or since the last reload
-        Fits(Cnt(_)) == /\ \A s \in F : \E f \in names : NameOf(s) = {f} /\ s.l = {<<"flow_name", f>>} \cup Gw(h) /\ s.v = 1000 * Cnt(f) /\ Cnt(f) > 0
+        \* (a flow that has not run may be shown with 0 or not at all)
+        Fits(Cnt(_)) == /\ \A s \in F : \E f \in names \cup {x.name : x \in SeqSet(h.flows)} :
+                                             NameOf(s) = {f} /\ s.l = {<<"flow_name", f>>} \cup Gw(h) /\ s.v = 1000 * Cnt(f)
                         /\ \A f \in names : Cnt(f) > 0 => \E s \in F : NameOf(s) = {f}
     IN  IF F # {} /\ ~MayBeThere(h, "flow_invocations") THEN "M4-flow_invocations-Unlisted"
         ELSE IF ~NoDup(S, "flow_invocations_total") THEN "M4-flow_invocations-Series"
